@@ -90,9 +90,9 @@ class Grammar:
         self.ignore = list(L.ignore_tokens)
         self.rules: list[GRule] = []
         for r in L.rules:
-            exp = tuple((s.name, s.is_term, bool(getattr(s, "filter_out", False))) for s in r.expansion)
+            exp = tuple((str(s.name), s.is_term, bool(getattr(s, "filter_out", False))) for s in r.expansion)
             self.rules.append(
-                GRule(r.origin.name if isinstance(r.origin.name, str) else str(r.origin.name), exp, r.alias, bool(r.options.keep_all_tokens), bool(r.options.expand1), r.order, r)
+                GRule(str(r.origin.name), exp, r.alias, bool(r.options.keep_all_tokens), bool(r.options.expand1), r.order, r)
             )
         self.by_origin: dict[str, list[GRule]] = {}
         for r in self.rules:
@@ -298,6 +298,47 @@ class Grammar:
                 if k == "$END" and stack[-1] == self.end_state:
                     return True, "accepted"
 
+    def run_items(self, items: list[tuple], retag: Callable | None = None) -> tuple[bool, str, list[str]]:
+        """Feed a sequence of ('K', terminal) / ('W', word) items to the LALR automaton.  A word is
+        classified by the contextual lexer's accept list of the current parser state (lark's own
+        terminal order).  ``retag(prev, kind, text)`` models the interactive retagging; ``prev`` is
+        the (kind, text) of the previously shifted token or None.  Returns (accepted, reason, kinds)."""
+        stack = [self.start_state]
+        prev: tuple | None = None
+        kinds: list[str] = []
+        seq = list(items) + [("K", "$END")]
+        for idx, (how, x) in enumerate(seq):
+            if how == "W":
+                k = self.lex_kind(x, self.accepts.get(stack[-1], []))
+                if k is None or k in self.ignore:
+                    return False, f"item #{idx}: word {x!r} matches no terminal acceptable in state {stack[-1]}", kinds
+                text = x
+            else:
+                k, text = x, None
+            if retag is not None and k != "$END":
+                k = retag(prev, k, text)
+            kinds.append(k)
+            steps = 0
+            while True:
+                steps += 1
+                if steps > 10000:
+                    return False, "reduction loop", kinds
+                acts = self.states[stack[-1]]
+                if k not in acts:
+                    return False, f"item #{idx}: {k}{'(' + text + ')' if text else ''} not accepted in state {stack[-1]} (expects {sorted(acts)[:6]}…)", kinds
+                a, arg = acts[k]
+                if a == "S":
+                    stack.append(arg)
+                    prev = (k, text)
+                    break
+                n = len(arg.expansion)
+                if n:
+                    del stack[-n:]
+                stack.append(self.states[stack[-1]][arg.origin.name][1])
+                if k == "$END" and stack[-1] == self.end_state:
+                    return True, "accepted", kinds
+        return False, "input ended without acceptance", kinds
+
     def state_after(self, kinds: list[str], retag=None) -> tuple[int | None, list[str]]:
         """State stack top after shifting ``kinds`` (used for accept-set queries)."""
         stack = [self.start_state]
@@ -328,13 +369,46 @@ class Grammar:
         return [n for n in self.term_order if self.terms[n].fullmatch(word)]
 
     def lex_kind(self, word: str, accept: list[str]) -> str | None:
-        """Terminal a *whole word* gets from lark's basic lexer with this accept list
-        (priority, then literal-before-regex / length, i.e. the order of ``accept``)."""
-        for n in accept:
-            t = self.terms.get(n)
-            if t is not None and t.fullmatch(word):
-                return n
-        return None
+        """Terminal a *whole vocabulary word* gets from lark's BasicLexer built over the terminals
+        ``accept`` (already in lark's match order): regex and non-embedded literal terminals are tried
+        in order and the first that matches a prefix wins (None if that prefix is not the whole word:
+        the word would be split); a regex terminal's match is re-typed to a literal terminal of the same
+        priority that equals the text (lark's "unless" callback)."""
+        key = (word, tuple(accept))
+        memo = self.__dict__.setdefault("_lex_memo", {})
+        if key in memo:
+            return memo[key]
+        terms = [self.terms[n] for n in accept if n in self.terms]
+        res = [t for t in terms if t.kind == "re"]
+        strs = [t for t in terms if t.kind == "str"]
+        embedded = set()
+        unless: dict[str, list[Term]] = {}
+        for r in res:
+            for st in strs:
+                if st.priority != r.priority:
+                    continue
+                m = r.regex().match(st.value)
+                if m and m.group(0) == st.value:
+                    unless.setdefault(r.name, []).append(st)
+                    if st.flags <= r.flags:
+                        embedded.add(st.name)
+        out = None
+        for t in terms:
+            if t.name in embedded:
+                continue
+            m = t.regex().match(word)
+            if m:
+                if m.group(0) != word:
+                    out = None
+                else:
+                    out = t.name
+                    for st in unless.get(t.name, []):
+                        if st.fullmatch(word):
+                            out = st.name
+                            break
+                break
+        memo[key] = out
+        return out
 
 
 @dataclass(frozen=True)
